@@ -586,13 +586,14 @@ func adaptEvents(outDir, tier string, rng *rand.Rand) error {
 		whites = append(whites, whitePt{"xyz", c.X, c.Y, c.Z})
 	}
 	whites = append(whites, whitePt{"xyz", ciexyz.D50.X, ciexyz.D50.Y, ciexyz.D50.Z}, whitePt{"xyz", ciexyz.D65.X, ciexyz.D65.Y, ciexyz.D65.Z})
-	scale := 1 // the luminance scale of the pair being emitted: 1, or 100 (whites given on the 0-100 scale)
+	scale := 1  // the luminance scale of the destination white of the pair being emitted: 1, or 100
+	mscale := 1 // the size of the matrix entries: the luminance ratio destination / source, if above 1
 	emitPair := func(a, b whitePt) {
 		defer func() {
 			if r := recover(); r != nil { // a constructor that refuses a physically valid white point is an observation
 				z := matRows(matrix.Matrix3{})
 				sink.put(dy{"kind": "adapt", "a": a.json(), "b": b.json(), "ab": z, "ba": z, "aa": z, "applied": obs3(0, 0, 0), "same_xyy": false,
-					"panic": true, "panic_msg": fmt.Sprint(r), "scale": scale})
+					"panic": true, "panic_msg": fmt.Sprint(r), "scale": scale, "mscale": mscale})
 			}
 		}()
 		ab, ba, aa := a.adaptTo(b), b.adaptTo(a), a.adaptTo(a)
@@ -600,7 +601,7 @@ func adaptEvents(outDir, tier string, rng *rand.Rand) error {
 		// the xyY constructor must give the adaptation of the XYZ constructor on the converted whites
 		viaXYZ := ciexyz.AdaptBetweenXYZWhitePoints(a.xyz(), b.xyz())
 		sink.put(dy{"kind": "adapt", "a": a.json(), "b": b.json(), "ab": matRows(matrix.Matrix3(ab)), "ba": matRows(matrix.Matrix3(ba)),
-			"aa": matRows(matrix.Matrix3(aa)), "applied": obs3(ap.X, ap.Y, ap.Z), "same_xyy": matrix.Matrix3(viaXYZ) == matrix.Matrix3(ab), "panic": false, "scale": scale})
+			"aa": matRows(matrix.Matrix3(aa)), "applied": obs3(ap.X, ap.Y, ap.Z), "same_xyy": matrix.Matrix3(viaXYZ) == matrix.Matrix3(ab), "panic": false, "scale": scale, "mscale": mscale})
 	}
 	for _, a := range whites {
 		for _, b := range whites {
@@ -625,7 +626,23 @@ func adaptEvents(outDir, tier string, rng *rand.Rand) error {
 			}
 		}
 	}
-	scale = 1
+	// mixed scales: a white on the 0-100 scale adapted to one on the 0-1 scale and back (the matrix
+	// carries the luminance ratio; tolerances follow the destination's scale / the ratio)
+	for i, a := range whites100 {
+		for j, b := range whites[:17] {
+			if (i+j)%3 != 0 && tier != "thorough" {
+				continue
+			}
+			if a.form != b.form {
+				continue
+			}
+			scale, mscale = 1, 1
+			emitPair(a, b)
+			scale, mscale = 100, 100
+			emitPair(b, a)
+		}
+	}
+	scale, mscale = 1, 1
 	// chromaticity grid over [0.2, 0.5]^2 (with a seeded luminance now and then)
 	g := 6
 	if tier == "thorough" {
